@@ -374,12 +374,13 @@ def wsgi_adaptor(edge, raw_request):
     return response(int(code), reason, st['headers'], body)
 
 
-def run_http_hop(env):
+def run_http_hop(env, reuse=False):
     import slimta.http as shttp
     from slimta.relay.http import HttpRelay
     res = {}
     cq = CaptureQueue()
-    with World(Chooser(), max_steps=5000) as w:
+    # an idle HttpRelayClient polls for ever (timer after timer): stop firing timers after 60 virtual seconds
+    with World(Chooser(), max_steps=5000, horizon=60.0) as w:
         net = Net(w)
         saved = edge_wsgi.PtrLookup
         edge_wsgi.PtrLookup = FakePtrLookup
@@ -408,10 +409,15 @@ def run_http_hop(env):
                 gevent.spawn(serve)
                 return c
             w.patch(shttp, 'socket', types.SimpleNamespace(create_connection=create_connection))
-            relay = HttpRelay('http://edge.test:8025/deliver', ehlo_as='relay.test', timeout=30.0)
+            relay = HttpRelay('http://edge.test:8025/deliver', ehlo_as='relay.test', timeout=30.0,
+                              idle_timeout=5.0 if reuse else None)
 
             def go():
                 try:
+                    if reuse:
+                        first = make_env('first@x.test', ['p@x.test'], HEADERS[0], b'first\r\n')
+                        relay.attempt(first, 0)
+                        del cq.got[:]
                     res['o'] = ('returned', relay.attempt(env, 0))
                 except gevent.GreenletExit:
                     raise
@@ -462,6 +468,7 @@ def configs(tier, seed):
         cfgs.append({'t': 'lmtp', 'sweep': sweep})
         cfgs.append({'t': 'lmtp', 'sweep': sweep, 'reuse': True})
         cfgs.append({'t': 'http', 'sweep': sweep})
+        cfgs.append({'t': 'http', 'sweep': sweep, 'reuse': True})
     return cfgs
 
 
@@ -509,7 +516,7 @@ def run_config(cfg, tier, seed):
                     res.count('lmtp_reuse_opened_second_connection')
                 res.count('lmtp_hops')
             else:
-                o, cap, errors = run_http_hop(env.copy())
+                o, cap, errors = run_http_hop(env.copy(), reuse=cfg.get('reuse', False))
                 vs = judge_http(env, o, cap, errors)
                 res.count('http_hops')
             res.evaluations += 1
@@ -544,7 +551,7 @@ def replay(rep):
         o, peers = run_lmtp_hop(env.copy(), reuse=rep.get('reuse', False))
         vs = judge_lmtp(env, o, peers)
     else:
-        o, cap, errors = run_http_hop(env.copy())
+        o, cap, errors = run_http_hop(env.copy(), reuse=rep.get('reuse', False))
         vs = judge_http(env, o, cap, errors)
     if vs:
         return True, vs[0][1]
